@@ -41,6 +41,8 @@ TAssign  == /\ IsEvent("assign")
 TFree    == IsEvent("free") /\ P!Free(Cur.b, Cur.ip)
 TDeliver == IsEvent("deliver") /\ P!Deliver(Cur.b)
 TDelGone == IsEvent("deliver_gone") /\ P!DeliverGone(Cur.b)
+\* witness behaviours announce the delivery semantics they use; nothing to judge
+TOptions == IsEvent("options") /\ UNCHANGED vars
 TState   == IsEvent("state") /\ P!BookkeepingOK(Dump) /\ UNCHANGED vars
 
 TSyncBegin == IsEvent("sync_begin") /\ P!SyncBegin(Cur.tb, Cur.full)
@@ -69,6 +71,6 @@ TFinal  == IsEvent("final") /\ P!FinalOK /\ frozen /\ UNCHANGED vars
 
 TNext == TReset \/ TNodeAdd \/ TNodeDel \/ TPodSet \/ TPodDel \/ TPodSync \/ TVMSet \/ TBlkNew \/ TBlkDel
          \/ TAssign \/ TFree \/ TDeliver \/ TDelGone \/ TState \/ TSyncBegin \/ TSyncEnd \/ TRelIPs \/ TRelBlock
-         \/ TRelHost \/ TFreeze \/ TFinal
+         \/ TRelHost \/ TFreeze \/ TFinal \/ TOptions
 TSpec == TInit /\ [][TNext]_<<vars, l>>
 =============================================================================
